@@ -3,6 +3,7 @@
 package core
 
 import (
+	"sync"
 	"hash/crc32"
 	"context"
 	"crypto/sha256"
@@ -21,6 +22,7 @@ import (
 
 // Dict assigns small integers to page images / WAL generations by first appearance.
 type Dict struct {
+	mu    sync.Mutex
 	pages map[[32]byte]int
 	gens  map[[2]uint32]int
 }
@@ -29,6 +31,8 @@ func NewDict() *Dict { return &Dict{pages: map[[32]byte]int{}, gens: map[[2]uint
 
 func (d *Dict) Page(b []byte) int {
 	h := sha256.Sum256(b)
+	d.mu.Lock()
+	defer d.mu.Unlock()
 	if v, ok := d.pages[h]; ok {
 		return v
 	}
@@ -39,6 +43,8 @@ func (d *Dict) Page(b []byte) int {
 
 func (d *Dict) Gen(s1, s2 uint32) int {
 	k := [2]uint32{s1, s2}
+	d.mu.Lock()
+	defer d.mu.Unlock()
 	if v, ok := d.gens[k]; ok {
 		return v
 	}
